@@ -45,7 +45,14 @@ META = {
     "hardening": "a deterministic corner corpus + exhaustive length sweeps run first (seed-independent); call histories varying one "
                  "per-call argument at a time with a bit-exact repeat; in-place updates of caller tensors between calls (stale reads); "
                  "non-contiguous / embedded / expanded / aliased arguments with whole-buffer purity; mixed-regime batches compared item "
-                 "by item with single-item calls; per-fibre / per-item tolerances; every implementation misbehaviour is a failure",
+                 "by item with single-item calls; per-fibre / per-item tolerances; every implementation misbehaviour is a failure; "
+                 "round 5 (run_pass5): objects / calls with the optional argument omitted, interleaved (29); float16 / bfloat16 poses and points, "
+                 "int8..int64 / uint8 / float16 stamps (30); every public LieTensor operation (forward and backward, single items, all-1 batches, "
+                 "batches, both dtypes) between two bit-identical rounds of all entry points (32); `reduction` as a re-assigned attribute / user "
+                 "property (33); 2^18+37 (thorough: 2^18+1, 2^20+1) items for the point-wise parts with the last n mod 2^k items re-checked (34); "
+                 "exact ties decided, not skipped: equidistant stamps with duplicates, tied distance pairs, lower median of even-length error lists, "
+                 "each result checked to be ADMISSIBLE and against the first-index model (35); the band between round-off and a loose tolerance: "
+                 "stamps / path lengths / intervals / rotations / positions off by 1e-14 … 1e-5, nearly collinear positions (36)",
     "trusted": [
         "torch.arange / searchsorted / min / median / std semantics (external kernels, used through their contracts)",
         "svdstf (property C17) is a contract parameter: the model receives the transform the real svdstf returned; its optimality "
